@@ -1,2 +1,98 @@
-(* placeholder, replaced when the proofs are in *)
-From YK Require Import Ugm.UgmSpec.
+(* C05 — User and group quotas are enforced and follow the active configuration.
+   Property theorems only; the proofs are in Ugm/Enforce.v, Ugm/ConserveM.v, Ugm/ConserveEx.v,
+   Ugm/Reload.v and Ugm/ReloadFirst.v, examples that the hypotheses are satisfiable in
+   Ugm/Examples.v. *)
+From Coq Require Import List NArith ZArith Bool.
+From YK Require Import Base.Int64 Base.Res Base.ResSpec
+     Ugm.Tracker Ugm.Manager Ugm.UgmSpec Ugm.TrackerFacts Ugm.Enforce Ugm.Conserve Ugm.ConserveM Ugm.ConserveEx
+     Ugm.Reload Oracles.UgmCheck.
+Import ListNotations.
+Open Scope N_scope.
+
+(* Enforcement.  If the ask fits the answer of Manager.Headroom, then the Increase keeps
+   usage <= limit (on the resource types the limit defines) on every queue of the path, for the
+   user and for the group the application is charged to, wherever it held before the Increase.
+   [enforce_step] is the predicate the oracle evaluates on the implementation's states.
+   Hypotheses: the ask and the trackers on the path hold int64 values without duplicate types. *)
+Theorem headroom_sound : forall s p a r (user : ugi) s1 hr,
+  ugm_headroom s p a user = (s1, hr) ->
+  wf r -> res_in_range r ->
+  path_wf s1 (User (fst user)) p ->
+  (forall g, link s1 (fst user) a = Some g -> path_wf s1 (Group g) p) ->
+  FitInMaxUndef hr (Some r) = true ->
+  enforce_step s1 (ugm_increase s1 p a (Some r) user) (fst user) a p = true.
+Proof. exact headroom_sound_lemma. Qed.
+Print Assumptions headroom_sound.
+
+(* Max applications.  If Manager.CanRunApp admits the application, the Increase keeps
+   running applications <= max applications on every queue of the path (user and group). *)
+Theorem canrun_sound : forall s p a u (user : ugi) s1,
+  ugm_can_run_app s p a user = (s1, true) ->
+  canrun_step s1 (ugm_increase s1 p a u user) (fst user) a p = true.
+Proof. exact canrun_sound_lemma. Qed.
+Print Assumptions canrun_sound.
+
+(* Conservation.  From a state without usage (Inv s0 []: no usage, no application, the groups the
+   configuration can resolve have trackers with a limit), after every history of Increase /
+   Decrease / Headroom / CanRunApp calls that keeps the pairing discipline (hist_all_ok: one
+   user and queue per application, removeApp exactly when the application releases all it
+   holds, all sums within int64; no reload inside the history), tracked usage of every user and
+   group on every queue equals the sum of the live allocations. *)
+Theorem usage_is_sum : forall s0 ops s,
+  Inv s0 [] -> hist_all_ok [] ops -> run s0 ops = Some s ->
+  forall w names k, usage_exact s (ledger_of ops) w (ROOT :: names) k = true.
+Proof. exact usage_is_sum_lemma. Qed.
+Print Assumptions usage_is_sum.
+
+(* ... and it is back to zero when everything has been released *)
+Theorem usage_back_to_zero : forall s0 ops s,
+  Inv s0 [] -> hist_all_ok [] ops -> run s0 ops = Some s -> ledger_of ops = [] ->
+  forall w names k, tracked s w (ROOT :: names) k = 0%Z.
+Proof. exact usage_back_to_zero. Qed.
+Print Assumptions usage_back_to_zero.
+
+(* the starting condition is decidable *)
+Theorem usage_is_sum_start : forall s paths, inv0b s paths = true -> Inv s [].
+Proof. exact inv0b_Inv. Qed.
+Print Assumptions usage_is_sum_start.
+
+(* FULL STATEMENT with reloads inside the history is false (finding C05-group-reset-usage) *)
+Theorem usage_with_reload_refuted :
+  exists hist s w h k, run ugm_init hist = Some s /\ usage_exact s (ledger_hist hist) w h k = false.
+Proof. exact usage_with_reload_refuted_lemma. Qed.
+Print Assumptions usage_with_reload_refuted.
+
+(* The group is resolved once per application: while the application is running, only the
+   Decrease that removes it (or a reload) changes the group it is charged to. *)
+Theorem group_stable : forall s o s' u a x ut,
+  fst (step s o) = Some s' ->
+  nlookup (users s) u = Some ut -> In a (q_apps (ut_qt ut)) -> resolved s u a = Some x ->
+  match o with
+  | OConfig _ _ => False
+  | ODec _ b _ usr true => ~ (b = a /\ fst usr = u)
+  | _ => True
+  end ->
+  resolved s' u a = Some x.
+Proof. exact group_stable_lemma. Qed.
+Print Assumptions group_stable.
+
+(* Configuration.  FULL STATEMENT (false):
+     forall hist s conf, run ugm_init hist = Some s -> last_conf hist None = Some conf ->
+       forall w h, limit_exact s conf w h = true.
+   Refuted (finding C05-lost-named-limit): *)
+Theorem reload_exact_refuted :
+  exists hist s conf w h,
+    run ugm_init hist = Some s /\ last_conf hist None = Some conf /\ limit_exact s conf w h = false.
+Proof. exact reload_exact_refuted_lemma. Qed.
+Print Assumptions reload_exact_refuted.
+
+(* the result of a reload depends on the iteration order of the reset phase (finding C05-reload-order) *)
+Theorem reload_order_refuted :
+  exists hist s c rn s1 s2,
+    run ugm_init hist = Some s /\
+    update_config_gen true (fun l => l) false s c rn = UOk s1 /\
+    update_config_gen true (@rev _) true s c rn = UOk s2 /\
+    state_eqb s1 s2 = false.
+Proof. exact reload_order_refuted_lemma. Qed.
+Print Assumptions reload_order_refuted.
+
